@@ -64,7 +64,7 @@ func c37Run(arg string) explore.HistFn {
 		}
 	}
 	limitMs := int64(k)*1500 + 2*int64(tickMs) // ticks are offered while idle < limit
-	maxTicksK0 := 28               // K=0: 7 s of silence
+	maxTicksK0 := 28                           // K=0: 7 s of silence
 	return func(hist []string) explore.HistResult {
 		h := newH(world.Config{})
 		m := &c37Model{k: k, closedAt: -1}
